@@ -72,6 +72,11 @@ def run(prop, tier, seed, scratch, replay=None):
     res.add_report(rep)
     if rep["traces"] != ntraces:
         res.errors.append("driver replayed %d of %d behaviours" % (rep["traces"], ntraces))
+    # binding self-test: with the prescribed result class of the last observation inverted, the driver must object
+    flip = lambda v: ("error" if v == "ok" else "ok") if isinstance(v, str) else v
+    st = vlib.binding_selftest(scratch, drv, lambda i, o: ["-in", i, "-out", o, "-workers", 4, "-seed", seed], traces, [("step.ret", flip)],
+                               where=lambda tr: tr.get("steps") and tr["steps"][-1]["op"] in ("Decrypt", "OpenProbe", "DeriveKey")
+                               and isinstance(tr["steps"][-1].get("ret"), str))
     # manager level, concurrent: spec/SealMgr.tla (Encrypt/Decrypt as a critical section against Lock)
     ctr = scratch.path("conc.ndjson")
     crep = scratch.path("conc-report.json")
@@ -112,6 +117,7 @@ def run(prop, tier, seed, scratch, replay=None):
                        "place) and Unlock; every transition's behaviour was replayed with real goroutines, the worker parked at the hook "
                        "crypt.keyselected while Lock is called, and every ciphertext Encrypt returned was opened again after the next Unlock."
                        % ", ".join(c for c, _, _ in RUNS[tier]),
+        "binding_selftest": st,
         "per_config": per_cfg, "replayed_steps": rep["steps"], "driver_counters": rep.get("extra", {}),
         "tlc_wall_s": round(wall, 1), "checker_cmd": " ; ".join(cmds),
     }
